@@ -339,24 +339,45 @@ func init() {
 					return ok && b.Op == token.GTR && IsLoadOf(gs)(b.X) && IsLoadOf(ge)(b.Y), 0
 				}},
 			}
+			// anchorIn: the instruction of psa that stands for x (x itself, or the call that leads to the private helper holding x)
+			var anchorIn func(x ssa.Instruction, d int) ssa.Instruction
+			anchorIn = func(x ssa.Instruction, d int) ssa.Instruction {
+				if x.Parent() == psa {
+					return x
+				}
+				if d > 3 || !c.P.PrivateHelper(x.Parent()) {
+					return nil
+				}
+				sites := c.P.CallSitesOf(x.Parent())
+				if len(sites) != 1 {
+					return nil
+				}
+				return anchorIn(sites[0].Instr, d+1)
+			}
 			for _, vc := range checks {
 				var hit *ssa.If
 				fail := 0
-				forEachInstr(psa, func(in ssa.Instruction) {
-					ifi, ok := in.(*ssa.If)
-					if !ok || hit != nil {
-						return
-					}
-					// only the validation prefix: not reachable from any mutator
-					if m, f := vc.pat(ifi); m {
-						for _, mu := range muts {
-							if CanReach(mu, ifi) {
+				for _, g := range c.P.Region(psa) {
+					forEachInstr(g, func(in ssa.Instruction) {
+						ifi, ok := in.(*ssa.If)
+						if !ok || hit != nil {
+							return
+						}
+						// only the validation prefix: not reachable from any mutator
+						if m, f := vc.pat(ifi); m {
+							anchor := anchorIn(ifi, 0)
+							if anchor == nil {
 								return
 							}
+							for _, mu := range muts {
+								if mu.Parent() == psa && CanReach(mu, anchor) {
+									return
+								}
+							}
+							hit, fail = ifi, f
 						}
-						hit, fail = ifi, f
-					}
-				})
+					})
+				}
 				if hit == nil {
 					c.Fail("validate:"+vc.name, c.P.Pos(psa.Pos()), "validation check '"+vc.name+"' not found ahead of all mutators: an invalid SACK could be partially applied")
 					continue
@@ -375,6 +396,38 @@ func init() {
 				} else {
 					res := retResults(ret)
 					okErr = len(res) > 0 && !isNilConst(res[len(res)-1])
+				}
+				if okErr && hit.Parent() != psa {
+					// the helper's error must end the caller too: the call result is tested and the error edge returns
+					anchor := anchorIn(hit, 0)
+					okErr = false
+					if av, isV := anchor.(ssa.Value); isV {
+						forEachInstr(psa, func(in ssa.Instruction) {
+							ifi, ok := in.(*ssa.If)
+							if !ok {
+								return
+							}
+							b, ok := ifi.Cond.(*ssa.BinOp)
+							if !ok || b.Op != token.NEQ || !isNilConst(b.Y) {
+								return
+							}
+							tested := b.X == av
+							if ex, isEx := b.X.(*ssa.Extract); isEx && ex.Tuple == av {
+								tested = true
+							}
+							if !tested {
+								return
+							}
+							for _, x := range ifi.Block().Succs[0].Instrs {
+								if r, isRet := x.(*ssa.Return); isRet {
+									res := retResults(r)
+									if len(res) > 0 && !isNilConst(res[len(res)-1]) {
+										okErr = true
+									}
+								}
+							}
+						})
+					}
 				}
 				c.Check(okErr, "validate:"+vc.name, c.Pos(hit), "checked before any mutation; failure returns an error", "check exists but its failing edge does not return an error")
 			}
